@@ -27,12 +27,12 @@ setup_numba_cache()
 
 PY = sys.executable
 INT32_MIN, INT32_MAX = -2 ** 31, 2 ** 31 - 1
-METRICS = ["euclidean", "cosine", "manhattan"]       # surrogate + sqrt, surrogate + log correction, no surrogate
+METRICS = ["euclidean", "cosine", "manhattan", "hamming"]   # surrogate + sqrt, surrogate + log correction, no surrogate, no surrogate + angular trees (not scale free)
 REL_TOL = 1e-5
 # cosine is evaluated as 1 - 2**(-log2(...)) in float32: whatever the code does, a value near 1 is subtracted from 1, so the
 # result carries an absolute error of a few float32 ulps of 1.0 (1.2e-7); small cosine distances therefore get an absolute
 # floor of 4 ulp(1.0).  euclidean / manhattan involve no cancellation: purely relative.
-ABS_TOL = {"cosine": 4 * 2.0 ** -23, "euclidean": 0.0, "manhattan": 0.0}
+ABS_TOL = {"cosine": 4 * 2.0 ** -23, "euclidean": 0.0, "manhattan": 0.0, "hamming": 0.0}
 # a sparse matrix cannot hold a 0.0 entry; the module's own convention for a zero distance (adjacency_matrix_representation:
 # "Preserve any distance 0 points") is FLOAT32_EPS - accepted as the weight of an edge whose true length is 0
 FLOAT32_EPS = 2.0 ** -23
@@ -259,6 +259,20 @@ def make_data(case):
             else:
                 pts = (centre + 0.3 * r.standard_normal((s, dim))).clip(0.05, None) * r.uniform(0.5, 4.0, size=(s, 1))
             rows.append(pts)
+    elif metric == "hamming":
+        # categorical rows (values 1..9, never unit norm): a cluster = a base word with at most two letters changed
+        dim = 12
+        for c, s in enumerate(sizes):
+            base = r.integers(1, 10, size=dim)
+            base[c % dim] = 10 + c                      # distinct clusters differ in most letters
+            if fam == "dup" and c < 2:
+                pts = np.tile(base, (max(s, 2 * case["k"] + 3), 1))
+            else:
+                pts = np.tile(base, (s, 1))
+                for row in pts:
+                    for _ in range(int(r.integers(0, 3))):
+                        row[int(r.integers(dim))] = int(r.integers(1, 10))
+            rows.append(pts.astype(float))
     else:
         dim = case["dim"]
         cells = set()
@@ -294,6 +308,8 @@ def true_distance(metric, x, y):
         return float(np.abs(x - y).sum())
     if metric == "cosine":
         return float(1.0 - (x @ y) / np.sqrt((x @ x) * (y @ y)))
+    if metric == "hamming":
+        return float((x != y).mean())
     raise ValueError(metric)
 
 
@@ -781,7 +797,7 @@ def run(res, tier, seed, search):
     res.rule = ("kernel: generator streams from API-like / negative / edge / derived states, bit-exact; rejection_sample(n, pool) for "
                 "n <= pool (incl. n = pool, pool = 1, n = 0) vs model exactly (samples + state), non-trivial = n >= 2 and 2n >= pool "
                 "(rejections occur); n > pool and degenerate states only in a killed child.  API: 2..8 separated clusters of sizes 1..40 "
-                "(families gauss / lattice (ties) / dup (>= 2k+3 copies of one point) / per metric euclidean, cosine, manhattan; "
+                "(families gauss / lattice (ties) / dup (>= 2k+3 copies of one point) / per metric euclidean, cosine, manhattan, hamming; "
                 "k in 2..15, search_size in {3,5,10,25}), graph = adjacency_matrix_representation(neighbor_graph); non-trivial = the graph "
                 "has >= 2 components and at least one smaller than search_size; distinct = hash of the case description")
     quick = tier == "quick"
